@@ -4,6 +4,7 @@ import (
 	"fmt"
 	"go/token"
 	"go/types"
+	"reflect"
 	"sort"
 	"strings"
 
@@ -13,7 +14,7 @@ import (
 func init() {
 	register(&propInfo{
 		ID:          "C01",
-		Explanation: "Symbolic comparison of index expressions (linear forms over loop indexes and descriptor fields, resolved through locals, helpers and the stores that fill the descriptor fields) at the places where argument and result positions are decided: (R01.1) on the server the slot of the reflective call's argument list into which parameter i is stored equals the index of the declared input whose type was used to decode it (the receiver-type table is filled with In(e1) at index e2; the value decoded with entry j is stored at slot e1[e2:=j]); (R01.2) the argument list is made with as many slots as the method has inputs, and the context is placed in exactly the input position that was tested for being a context (server: behind the receiver; client: first argument); (R01.3) on the client the i-th wire parameter is the argument at position i + (number of leading context arguments), for the same i, and the parameter list has len(args) minus that number of entries. These are the structural halves of 'calling the client function runs the handler with those arguments': a position mismatch makes reflect.Call panic or hands an argument to the wrong parameter for signatures the suite does not exercise (context plus several parameters, three or more parameters). (R01.4) no frame, parameter or result bytes live in sync.Pool memory that is put back (also by a deferred closure) while a slice of it was sent on a channel or returned; (R01.5) every handler argument is decoded into a fresh reflect.New of the declared type; (R01.6) the context input and error output of a signature are recognised by identity of the declared In/Out type with the reference type, never by Implements/AssignableTo/ConvertibleTo. (R01.7) between building the response and emitting it the result or the error member is set on every path; (R01.8) tables filled by options are made per configuration value; (R01.9) no proxy function is bound to a copy of the client. (R01.10) before the handler runs a request is refused only for an unknown method, an unsupported channel mode or bad params. (R01.11) the reply's result is decoded whenever it is present, not depending on its bytes; (R01.12) the reverse client is built per connection. (R01.13) every wire parameter is the caller's argument or a parameter encoder's result; (R01.14) inbound frames are decoded into fresh memory.",
+		Explanation: "Symbolic comparison of index expressions (linear forms over loop indexes and descriptor fields, resolved through locals, helpers and the stores that fill the descriptor fields) at the places where argument and result positions are decided: (R01.1) on the server the slot of the reflective call's argument list into which parameter i is stored equals the index of the declared input whose type was used to decode it (the receiver-type table is filled with In(e1) at index e2; the value decoded with entry j is stored at slot e1[e2:=j]); (R01.2) the argument list is made with as many slots as the method has inputs, and the context is placed in exactly the input position that was tested for being a context (server: behind the receiver; client: first argument); (R01.3) on the client the i-th wire parameter is the argument at position i + (number of leading context arguments), for the same i, and the parameter list has len(args) minus that number of entries. These are the structural halves of 'calling the client function runs the handler with those arguments': a position mismatch makes reflect.Call panic or hands an argument to the wrong parameter for signatures the suite does not exercise (context plus several parameters, three or more parameters). (R01.4) no frame, parameter or result bytes live in sync.Pool memory that is put back (also by a deferred closure) while a slice of it was sent on a channel or returned; (R01.5) every handler argument is decoded into a fresh reflect.New of the declared type; (R01.6) the context input and error output of a signature are recognised by identity of the declared In/Out type with the reference type, never by Implements/AssignableTo/ConvertibleTo. (R01.7) between building the response and emitting it the result or the error member is set on every path; (R01.8) tables filled by options are made per configuration value; (R01.9) no proxy function is bound to a copy of the client. (R01.10) before the handler runs a request is refused only for an unknown method, an unsupported channel mode or bad params. (R01.11) the reply's result is decoded whenever it is present, not depending on its bytes; (R01.12) the reverse client is built per connection. (R01.13) every wire parameter is the caller's argument or a parameter encoder's result; (R01.14) inbound frames are decoded into fresh memory. R01.8 also: not made in a function that runs once per process; (R01.15) the params member of the wire request is always written.",
 		NotDecided:  "Everything about values: JSON round trips (nil vs empty, 64-bit extremes, escaping), custom encoders/decoders, result positions computed by processFuncOut, equality of outcomes across transports and name formatters. Shapes that do not use index arithmetic (an argument list built by append) are reported as not compared, not as violations.",
 		Assumptions: []string{"reflect.Call requires argument k to be assignable to input k of the function", "descriptor fields are written only by the visible stores (closed struct types)"},
 		Run:         runC01,
@@ -251,6 +252,24 @@ func runC01(c *Ctx) {
 	c.resultDecodedWhenPresent("R01.11")
 	c.rule("R01.12", "a reverse call runs the handler of the very client it was made for: the reverse client, its queue and its proxy are built per connection")
 	c.reverseClientFresh("R01.12")
+	c.rule("R01.15", "raw parameters arrive as they were given: the params member of the wire request is always written (no omitempty), so a nil RawParams reaches the handler as null and not as an empty, undecodable value")
+	if r.TReq != nil {
+		st := structOf(r.TReq)
+		found := false
+		for i := 0; st != nil && i < st.NumFields(); i++ {
+			tag := reflect.StructTag(st.Tag(i)).Get("json")
+			if strings.Split(tag, ",")[0] != "params" {
+				continue
+			}
+			found = true
+			c.check(!strings.Contains(tag, "omitempty"), "R01.15", "wire request: params member", p.pos(st.Field(i).Pos()), "always written", "the params member is omitted when empty: a raw-params call made with nil (whose JSON form is null) reaches the handler with no bytes at all, and decoding them fails where the direct call would have worked")
+		}
+		if !found {
+			c.und("R01.15", "wire request: params member", "-", "no field tagged params")
+		}
+	} else {
+		c.und("R01.15", "wire request type", "-", "not resolved")
+	}
 	c.rule("R01.14", "the handler sees the parameters that were sent: inbound frames are decoded into fresh memory (a notification's params are still being read by its handler when the next frame arrives)")
 	c.freshDecodeTarget("R01.14")
 	c.ruleOpt("R01.13", "every wire parameter is the caller's argument itself or what a registered parameter encoder made of it — never a value the client substitutes (an empty slice for a nil one, a zero value)")
@@ -1036,6 +1055,10 @@ func (c *Ctx) configMapsOwned(rule string) {
 					okAll = false
 					why = "the table is taken from somewhere else than a make/map literal of its own (" + c.ipos(u.At) + "): configurations built this way share it"
 				}
+				if c.runsOnce(u.Fn) {
+					okAll = false
+					why = "the table is made in a function that runs once per process (sync.OnceValue / Once.Do / package initialisation, " + c.ipos(u.At) + "): every configuration built from that value shares the map — an encoder, decoder or alias registered for one client is applied by all"
+				}
 			}
 			pos := "-"
 			if len(stores) > 0 {
@@ -1104,4 +1127,62 @@ func (c *Ctx) resultDecodedWhenPresent(rule string) {
 	if n == 0 {
 		c.und(rule, "decoding of the reply's result", "-", "not found in the client call path")
 	}
+}
+
+// runsOnce: fn (or the function literal it lies in) only ever runs as the argument of
+// sync.OnceValue / OnceValues / OnceFunc / (*sync.Once).Do, or during package initialisation.
+func (c *Ctx) runsOnce(fn *ssa.Function) bool {
+	p := c.P
+	for f := fn; f != nil; f = f.Parent() {
+		if f.Name() == "init" && f.Parent() == nil && f.Signature.Recv() == nil {
+			return true
+		}
+		once := false
+		check := func(call ssa.CallInstruction) {
+			switch calleeName(call) {
+			case "sync.OnceValue", "sync.OnceValues", "sync.OnceFunc", "(*sync.Once).Do":
+				once = true
+			}
+		}
+		for _, mc := range p.closure[f] {
+			for _, ref := range *mc.Referrers() {
+				if call, ok := ref.(ssa.CallInstruction); ok && call.Common().Value != ssa.Value(mc) {
+					check(call)
+				}
+			}
+		}
+		for _, g := range p.Funcs {
+			allInstrsRaw(g, func(in ssa.Instruction) {
+				call, ok := in.(ssa.CallInstruction)
+				if !ok {
+					return
+				}
+				for _, a := range call.Common().Args {
+					if a == ssa.Value(f) {
+						check(call)
+					}
+				}
+			})
+		}
+		if pk := p.Root.Func("init"); pk != nil {
+			allInstrsRaw(pk, func(in ssa.Instruction) {
+				call, ok := in.(ssa.CallInstruction)
+				if !ok {
+					return
+				}
+				for _, a := range call.Common().Args {
+					if a == ssa.Value(f) {
+						check(call)
+					}
+					if mc, ok := a.(*ssa.MakeClosure); ok && mc.Fn == ssa.Value(f) {
+						check(call)
+					}
+				}
+			})
+		}
+		if once {
+			return true
+		}
+	}
+	return false
 }
